@@ -954,8 +954,15 @@ class FortranReaderBase:
             ):
                 # ;-separator not recognized in pyf-mode
                 items = []
-                # Deal with each Fortran statement separately.
-                split_line_iter = iter(item.get_line().split(";"))
+                # Deal with each Fortran statement separately. The line
+                # returned by get_line() is lower-cased, so split a version
+                # of the line that keeps the case of names.
+                if self._format.is_f77:
+                    # get_line() also converts Hollerith constants.
+                    split_line, split_map = item.get_line(), item.apply_map
+                else:
+                    split_line, split_map = string_replace_map(item.line, lower=False)
+                split_line_iter = iter(split_line.split(";"))
                 first = next(split_line_iter)
                 # The full line has already been processed as a Line
                 # object in 'item' (and may therefore have label
@@ -967,7 +974,7 @@ class FortranReaderBase:
                 # statement (rather than the full line). Subsequent
                 # statements need to be processed into Line
                 # objects.
-                items.append(item.copy(first.strip(), apply_map=True))
+                items.append(item.copy(split_map(first.strip())))
                 for line in split_line_iter:
                     # Any subsequent statements have not been processed
                     # before, so new Line objects need to be created.
@@ -981,7 +988,7 @@ class FortranReaderBase:
                         # using the existing span (line numbers) and
                         # reader.
                         new_line = Line(
-                            item.apply_map(line), item.span, label, name, item.reader
+                            split_map(line), item.span, label, name, item.reader
                         )
                         items.append(new_line)
                 items.reverse()
